@@ -187,6 +187,9 @@ def check(run: Run) -> None:
     if bad and not failures:
         run.violation({"kind": "correspondence", "theorem_or_correspondence": "corr_stub (Model.Stubgen.stub_decls vs the parsed stub)", "definition": min(bad, key=len), "count": len(bad)},
                       tag="corr-stub", no_input=True)
+    n_p, bad_p = reserved_name_probes(run, generate_cstruct_stub, cstruct)
+    n_oracle += n_p
+    failures += bad_p
     F.obligation_fallback(run, ok, bool(failures or bad))
     cov = run.coverage
     cov["evaluations"] = n_oracle + len(checks)
@@ -198,6 +201,29 @@ def check(run: Run) -> None:
     cov["distribution"] = {"definition_sets": n_oracle, "skeleton_checks": len(checks), "skeleton_mismatches": len(bad), "oracle_failures": failures}
     cov["samples"] = [{"definition": m[:300]} for m in meta[:2]]
     run.assumptions += ["syntactic validity = accepted by CPython 3.12's ast.parse; typing semantics of the hints are not judged"]
+
+
+def reserved_name_probes(run, generate_cstruct_stub, cstruct) -> tuple[int, int]:
+    """C definitions whose names Python cannot use: the stub must still be Python that compiles (recorded findings when it is not)."""
+    n, bad = 0, 0
+    probes = [("C20/python-reserved-name", "struct S { uint8 in; uint8 from; };"), ("C20/python-reserved-name", "enum E : uint8 { None = 0, True = 1 };"),
+              ("C20/python-reserved-name", "#define pass 1\nstruct class { uint8 a; };"), ("C20/python-reserved-name", "struct S { uint8 self; uint8 b; };"),
+              ("C20/non-identifier-constant", "#define MAX(a,b) a+b\nstruct S { uint8 a; };"),
+              ("C20/syntax", "struct S { uint8 _in; uint8 From; uint8 selfish; };"), ("C20/syntax", "#define MAXAB 3\nstruct S { uint8 a[MAXAB]; };")]
+    for sig, text in probes:
+        n += 1
+        try:
+            cs = cstruct()
+            cs.load(text)
+            stub = generate_cstruct_stub(cs)
+            compile(ast.parse(stub), "<stub>", "exec")
+        except SyntaxError as e:
+            bad += 1
+            run.report(sig, {"definition": text, "ops": [{"op": "compile(ast.parse(stub))", "observed": f"SyntaxError: {e.msg}: {(e.text or '').strip()}", "expected": "Python that compiles"}]})
+        except Exception as e:  # noqa: BLE001
+            bad += 1
+            run.report("C20/generator-raises", {"definition": text, "ops": [{"op": "load + generate_cstruct_stub", "observed": f"{type(e).__name__}: {e}", "expected": "a stub"}]})
+    return n, bad
 
 
 def replay(rep: dict) -> int:
